@@ -188,6 +188,10 @@ def run(ctx):
 
     scenarios = []
     predicted = []    # (scenario id, invariant, cls or None)
+    replay_only = None
+    if ctx.replay:
+        with open(ctx.replay) as fh:
+            replay_only = json.load(fh)["replay"]["scenario"]
 
     def add_cex(res, sid, origin):
         m = re.search(r"is violated by the initial state:(.*?)\n\s*\n", res.out, re.S)
@@ -219,6 +223,16 @@ def run(ctx):
             add_cex(res, sid, "model-counterexample:" + res.violated[0] + ":" + what)
             predicted.append((sid, res.violated[0], None))
 
+    if replay_only is not None:
+        _replay_and_validate(ctx, [replay_only], [], None, dead_fixed, trust, quick=True, free=[])
+        return
+    adapter_sid = _model_check(ctx, quick, names, dead, live, dead_open, stale_open, mc, must_hold, add_cex, predicted,
+                               dead_fixed, W)
+    free = _generate(ctx, quick, names, shapes, scenarios, mk_scenario, rng, dead_fixed, trust)
+    _replay_and_validate(ctx, scenarios, predicted, adapter_sid, dead_fixed, trust, quick, free)
+
+
+def _model_check(ctx, quick, names, dead, live, dead_open, stale_open, mc, must_hold, add_cex, predicted, dead_fixed, W):
     # ------------------------------------------------------------------ 1. exhaustive model checking
     ERR = ["ErrorNotLost", "ErrorNotInvented"]
     # 1a/1b sequential, state: every sequence of updates (unbounded length), all shapes. With the deviation open the
@@ -283,8 +297,11 @@ def run(ctx):
                                        "result": "ok" if rr.no_error else "violated:" + ",".join(rr.violated)}
         if not rr.no_error:
             ctx.observations.append("the model with both repairs still violates " + ",".join(rr.violated))
-    ctx.exhaustive = True
+    ctx.exhaustive = False   # the model is decided exhaustively; the scenarios replayed on the real code are a seeded sample
+    return adapter_sid
 
+
+def _generate(ctx, quick, names, shapes, scenarios, mk_scenario, rng, dead_fixed, trust):
     # ------------------------------------------------------------------ 2. scenarios from the model
     sid = 1000
     nseq, ncon = (120, 160) if quick else (1200, 1800)
@@ -325,7 +342,11 @@ def run(ctx):
     scenarios += free
     sid += 1
     scenarios.append({"id": sid, "mode": "algebra", "origin": "algebra"})
+    ctx.extra["scenarios"] = {"generated_sequential": nseq, "generated_concurrent": ncon + ncon // 2, "free": nfree}
+    return free
 
+
+def _replay_and_validate(ctx, scenarios, predicted, adapter_sid, dead_fixed, trust, quick, free):
     # ------------------------------------------------------------------ 3. replay on the real code
     binp = ctx.build("roletree")
     scn_file = ctx.path("scenarios.ndjson")
@@ -334,7 +355,7 @@ def run(ctx):
     out = ctx.run([binp, "-scenarios", scn_file, "-trace", trace_file], timeout=900)
     ctx.log("replayed: " + out.strip())
     races = None
-    if not quick:
+    if not quick and free:
         # the same free-running runs under the race detector (gated runs are serialised by the gates)
         binr = ctx.build("roletree", race=True)
         rs = ctx.path("scenarios_race.ndjson")
@@ -379,8 +400,8 @@ def run(ctx):
     viol, drift, tr = ctx.validate("RoleTreeTrace", None, trace_file, cfg_text=tcfg, timeout=1200)
     ctx.traces = sum(1 for x in lines if x["ev"] == "Reset")
     ctx.extra["trace_lines"] = len(lines)
-    ctx.extra["scenarios"] = {"from_model_counterexamples": len([s for s in scenarios if s["origin"].startswith("model-")]),
-                              "generated_sequential": nseq, "generated_concurrent": ncon + ncon // 2, "free": nfree}
+    ctx.extra.setdefault("scenarios", {})["from_model_counterexamples"] = len(
+        [s for s in scenarios if s.get("origin", "").startswith("model-")])
 
     def trace_of(scn):
         return [x for x in lines if x.get("scn") == scn][:80]
